@@ -34,6 +34,9 @@ func runBounded(repo, test, tier string, seed int) (*boundedResult, string, erro
 	if test == "TestC16" {
 		cmd = exec.Command("/verif/bounded/run_inpkg.sh", "mdns", "/verif/bounded/inpkg/mdns_c16_test.go", test, out)
 	}
+	if test == "TestC17" {
+		cmd = exec.Command("/verif/bounded/run_inpkg.sh", "mdns", "/verif/bounded/inpkg/mdns_c17_test.go", test, out)
+	}
 	cmd.Env = append(os.Environ(), "REPO="+repo, "VERIF_TIER="+tier, "VERIF_SEED="+strconv.Itoa(seed))
 	b, err := cmd.CombinedOutput()
 	if err != nil {
